@@ -691,4 +691,44 @@ theorem ksD_upper_bound (s : List R) (F : R → R) (hs : s.Pairwise (fun a b => 
       linarith
 
 
+/-! ### exchanging the two samples -/
+
+theorem fmax_perm {β : Type} (f : β → ℝ) {l₁ l₂ : List β} (h : l₁.Perm l₂) (a : ℝ) : fmax f l₁ a = fmax f l₂ a := by
+  induction h generalizing a with
+  | nil => rfl
+  | cons x _ ih => rw [fmax_cons, fmax_cons, ih]
+  | swap x y l => rw [fmax_cons, fmax_cons, fmax_cons, fmax_cons, max_right_comm]
+  | trans _ _ ih1 ih2 => rw [ih1, ih2]
+
+theorem fmax_map {β γ : Type} (f : γ → ℝ) (g : β → γ) (l : List β) (a : ℝ) : fmax f (l.map g) a = fmax (fun x => f (g x)) l a := by
+  induction l generalizing a with
+  | nil => rfl
+  | cons x l ih => rw [List.map_cons, fmax_cons, fmax_cons, ih]
+
+theorem fmax_congr {β : Type} (f g : β → ℝ) (l : List β) (a : ℝ) (h : ∀ x, f x = g x) : fmax f l a = fmax g l a := by
+  have : f = g := funext h
+  rw [this]
+
+theorem foldl_minMax_fst (ps : List (R × R)) (a b : R) :
+    -(ps.foldl (fun (mm : R × R) (c : R × R) =>
+        (RealLike.min mm.1 (c.1 - c.2), RealLike.max mm.2 (c.1 - c.2))) (a, b)).1.val
+      = fmax (fun c : R × R => -(c.1.val - c.2.val)) ps (-a.val) := by
+  induction ps generalizing a b with
+  | nil => rfl
+  | cons c ps ih => rw [List.foldl_cons, ih, fmax_cons, R.min_val, R.sub_val, max_neg_neg]
+
+/-- the two one-sided statistics are exchanged when the samples are exchanged (exactly, whatever the search returns) -/
+theorem ksTwoStatSorted_swap (bs : List R → R → Bool × Nat) (sx sy : List R) :
+    (Hand.ksTwoStatSorted bs sx sy .less).val = (Hand.ksTwoStatSorted bs sy sx .greater).val ∧
+    (Hand.ksTwoStatSorted bs sx sy .greater).val = (Hand.ksTwoStatSorted bs sy sx .less).val := by
+  unfold Hand.ksTwoStatSorted Hand.minMaxS Hand.ecdfPairs
+  simp only [R.neg_val]
+  rw [foldl_minMax_fst, foldl_minMax_snd, foldl_minMax_fst, foldl_minMax_snd]
+  simp only [fmax_map, R.neg_val]
+  constructor
+  · rw [fmax_perm _ (List.perm_append_comm : (sx ++ sy).Perm (sy ++ sx))]
+    apply fmax_congr; intro x; ring
+  · rw [fmax_perm _ (List.perm_append_comm : (sx ++ sy).Perm (sy ++ sx))]
+    apply fmax_congr; intro x; ring
+
 end C20L
